@@ -93,14 +93,22 @@ package authenticators
 //@ func (*jwtAuthenticator).calculateCacheKey
 //@   props C11
 //@   nomaprange Write
-//@   ensures ehash.n == old(ehash.n) + 1 && hw.n == old(hw.n) + 3 && hw.arg1[old(hw.n)] == ehash.ret0[old(ehash.n)] && hw.arg1[old(hw.n) + 1] == bytesOf(renderedURL) && hw.arg1[old(hw.n) + 2] == bytesOf(reference)
+//@   ensures shanew.n > old(shanew.n) && ehash.n == old(ehash.n) + 1
+//@   ensures (exists k int :: old(hw.n) <= k && k < hw.n && hw.arg0[k] == shanew.ret0[old(shanew.n)] && hw.arg1[k] == ehash.ret0[old(ehash.n)])
+//@   ensures (exists k int :: old(hw.n) <= k && k < hw.n && hw.arg0[k] == shanew.ret0[old(shanew.n)] && hw.arg1[k] == bytesOf(renderedURL))
+//@   ensures (exists k int :: old(hw.n) <= k && k < hw.n && hw.arg0[k] == shanew.ret0[old(shanew.n)] && hw.arg1[k] == bytesOf(reference))
 
 //@ func (*oauth2IntrospectionAuthenticator).calculateCacheKey
 //@   props C11
 //@   nomaprange Write
-//@   ensures ehash.n == old(ehash.n) + 1 && hw.n == old(hw.n) + 3 && hw.arg1[old(hw.n)] == ehash.ret0[old(ehash.n)] && hw.arg1[old(hw.n) + 1] == bytesOf(templatedURL) && hw.arg1[old(hw.n) + 2] == bytesOf(token)
+//@   ensures shanew.n > old(shanew.n) && ehash.n == old(ehash.n) + 1
+//@   ensures (exists k int :: old(hw.n) <= k && k < hw.n && hw.arg0[k] == shanew.ret0[old(shanew.n)] && hw.arg1[k] == ehash.ret0[old(ehash.n)])
+//@   ensures (exists k int :: old(hw.n) <= k && k < hw.n && hw.arg0[k] == shanew.ret0[old(shanew.n)] && hw.arg1[k] == bytesOf(templatedURL))
+//@   ensures (exists k int :: old(hw.n) <= k && k < hw.n && hw.arg0[k] == shanew.ret0[old(shanew.n)] && hw.arg1[k] == bytesOf(token))
 
 //@ func (*genericAuthenticator).calculateCacheKey
 //@   props C11
 //@   nomaprange Write
-//@   ensures ehash.n == old(ehash.n) + 1 && hw.n == old(hw.n) + 2 && hw.arg1[old(hw.n)] == ehash.ret0[old(ehash.n)] && hw.arg1[old(hw.n) + 1] == bytesOf(reference)
+//@   ensures shanew.n > old(shanew.n) && ehash.n == old(ehash.n) + 1
+//@   ensures (exists k int :: old(hw.n) <= k && k < hw.n && hw.arg0[k] == shanew.ret0[old(shanew.n)] && hw.arg1[k] == ehash.ret0[old(ehash.n)])
+//@   ensures (exists k int :: old(hw.n) <= k && k < hw.n && hw.arg0[k] == shanew.ret0[old(shanew.n)] && hw.arg1[k] == bytesOf(reference))
